@@ -129,6 +129,9 @@ def check(ctx, replay=None):
     work += [{"n": n, "flags": fl, "seed": ctx.seed + n, "spawns": 2, "block": True} for n in (1, 4, 16) for fl in (1, 3)]
     # the loading thread loaded the same policy before, without thread-sync: the recorded load hands the kernel a program it has seen
     work += [{"n": n, "flags": fl, "seed": ctx.seed + n, "spawns": 2, "preload": True, "preload_flags": pf} for n in (1, 4, 16) for fl in (1, 3) for pf in (0, 2)]
+    # an earlier load of ANOTHER policy, with or without thread-sync: whether the recorded load reaches the other threads depends on its own flags only
+    work += [{"n": n, "flags": fl, "seed": ctx.seed + n, "spawns": 2, "preload": True, "preload_other": True, "preload_flags": pf}
+             for n in (2, 8) for fl in (0, 2, 1, 3) for pf in (1, 3, 0)]
     results = lf.run_many(lambda c: (c, run_cfg(binary, c)), work, workers=6)
     rows = []
     nrec = 0
@@ -150,8 +153,9 @@ def check(ctx, replay=None):
             # the loader was filtered (by the same policy) before the recorded load: outside LoaderTrace's fresh-process segments; judged by the statement
             ctx.cov["evaluations"] += sum(len(t["probes"]) for t in obs["threads"])
             for b in direct_judge(obs, cfg["flags"])[:2]:
-                ctx.violation("thread-sync load of a policy the thread had loaded before (without thread-sync) returned nil: %s" % b, {"config": cfg, "recording": obs,
-                              "admissible": "an error, or nil with every thread filtered", "how": "./check C10 --replay <this file>"})
+                ctx.violation("%s: %s" % ("a load after an earlier load of another policy (flags %#x) returned nil" % cfg["preload_flags"] if cfg.get("preload_other")
+                                           else "thread-sync load of a policy the thread had loaded before (without thread-sync) returned nil", b), {"config": cfg, "recording": obs,
+                              "admissible": "with thread-sync: an error, or nil with every thread filtered; without it only the loading thread is filtered", "how": "./check C10 --replay <this file>"})
             continue
         if (cfg.get("divergent") or cfg.get("block")) and cfg["flags"] & 1:
             # nil although another thread carries a divergent filter / seccomp(2) is unavailable: judged directly by the statement
